@@ -17,11 +17,11 @@ def run_demo():
     r = subprocess.run(["/venv/bin/python", "-W", "ignore", demo], cwd=wt, env=env, capture_output=True, text=True, timeout=1800)
     return r.returncode, (r.stdout + r.stderr)[-600:]
 with_rc, with_out = run_demo()
-subprocess.run(["git", "-C", wt, "stash", "-q"], check=True)
+subprocess.run(["git", "-C", wt, "apply", "-R", f"{out}/patch.diff"], check=True)
 try:
     wo_rc, wo_out = run_demo()
 finally:
-    subprocess.run(["git", "-C", wt, "stash", "pop", "-q"], check=True)
+    subprocess.run(["git", "-C", wt, "apply", f"{out}/patch.diff"], check=True)
 t = subprocess.run(["/venv/bin/python", "-m", "pytest", "-q", "-p", "no:cacheprovider", "tests"], cwd=wt, env=env, capture_output=True, text=True, timeout=1800)
 tests = [l for l in t.stdout.splitlines() if " passed" in l or " failed" in l][-1:]
 meta = {
